@@ -8,6 +8,9 @@ import (
 	"os"
 	"path/filepath"
 	"strings"
+	"time"
+
+	"github.com/trzsz/trzsz-go/internal/verifsim"
 )
 
 func init() {
@@ -130,6 +133,17 @@ func vC15System(rc *runCtx) {
 	fd0 := vOpenFDs()
 	before := vSnapshot(dst)
 	x := newXferWorld(rc, o)
+	// a slow disk on the receiving side: creating an entry takes a few milliseconds, so that saving a chunk full
+	// of small entries takes longer than anything else at the end of the transfer
+	if tp.Bool("c15.slowcreate", 250) {
+		per := time.Duration(5+tp.Draw("c15.slowcreate.ms", 60)) * time.Millisecond
+		rc.w.Disk = &verifsim.DiskFaults{OnCreate: func(path string) {
+			rc.fault("slow-entry-creation")
+			verifsim.Sleep(per)
+		}}
+		defer func() { rc.w.Disk = nil }()
+		rc.res.Scenario["slow_create"] = per.String()
+	}
 	x.start()
 	maxFD := fd0
 	rc.w.Run(func() bool {
